@@ -92,6 +92,15 @@ func init() {
 		if got := h.Sum(pre[:2:3]); len(got) != 4 || got[0] != 0xDE || got[1] != 0xAD || got[2] != sum[0] || got[3] != sum[1] || h.Sum16() != s16 || h.Size() != 2 || h.BlockSize() != 1 {
 			return fmt.Sprintf("sum-append-broken %x", got)
 		}
+		// ... whatever spare capacity the slice it is given has
+		for _, spare := range []int{0, 1, 2, 3, 4, 8, 64} {
+			buf := make([]byte, 2, 2+spare)
+			buf[0], buf[1] = 0x5A, 0xC3
+			got := h.Sum(buf)
+			if len(got) != 4 || got[0] != 0x5A || got[1] != 0xC3 || got[2] != sum[0] || got[3] != sum[1] || h.Sum16() != s16 {
+				return fmt.Sprintf("sum-append-broken spare=%d len=%d %x", spare, len(got), clipBytes(got, 12))
+			}
+		}
 		if n, err := h.Write(nil); n != 0 || err != nil || h.Sum16() != s16 {
 			return "empty-write-broken"
 		}
@@ -294,4 +303,11 @@ func crcLengths(res *RunResult) {
 		}
 	}
 	res.Notes = append(res.Notes, fmt.Sprintf("long-buffer oracle: %d buffers of %d lengths up to 2 MiB against the bitwise reference", n, len(lens)))
+}
+
+func clipBytes(b []byte, n int) []byte {
+	if len(b) > n {
+		return b[:n]
+	}
+	return b
 }
